@@ -31,7 +31,7 @@
 //	full      the result destination is /dev/full: every write fails with ENOSPC; no signal
 //	grpc      the grpc gun against an in-process grpc target (reflection), one signal
 //	mixed     two pools with DIFFERENT aggregator kinds (phout and jsonlines), one signal
-//	backpr    tiny queue + 4 KiB buffer + a pipe slower than the load: the aggregator sits in write(2), instances
+//	backpr    queue of 16 + 4 KiB buffer + a pipe slower than the load: the aggregator sits in write(2), instances
 //	          are parked in phout's blocking Report (jsonlines: counted drops) when the signal arrives
 //
 // The driver only RECORDS; TraceShutdown.tla decides.
@@ -626,7 +626,9 @@ func aggSigMain(args []string) {
 			cfg.pipe = r2.Intn(2) == 0
 		case "backpr":
 			cfg.pipe = true
-			cfg.q = 8
+			// more than the instances: a shot in flight at the signal must find room after the drain loop has ended
+			// (a parked instance would turn the exit into the interrupt timeout - Shutdown!ReportBlocks)
+			cfg.q = 16
 			cfg.afterMs = 400 + r2.Intn(800)
 		}
 		cfgs = append(cfgs, cfg)
